@@ -75,6 +75,26 @@ CHECKS = {
               "loop bounded by the dimension cannot complete a path (unwinding violation). Witnesses are replayed on the concrete IR "
               "machine with its loop/statement counters at D and at a larger D."),
         design="DESIGN.md §4 C16"),
+    "C10": dict(
+        level="model_checking", engine="E4-PyProxy",
+        technique="symbolic execution of the real TensorMethod.__call__ on z3-backed proxy tensors (symbolic order, modes, ordering, every dimension size up to 2^31-1); consistency at kernel entry decided by z3",
+        text=("The real TensorMethod objects are constructed for the enumerated assignments, their kernel pointer replaced by a spy and "
+              "allocate_taco_structure by a recorder; __call__ runs on proxy tensors whose order (0..4), per-level mode, per-level "
+              "ordering entry and every dimension size (0..2^31-1, never concretised) are symbolic. For every path that reaches the "
+              "spy z3 decides that all arguments have the generated order/modes/ordering, that all participants of every index have "
+              "equal size and that the recorded output dimensions are the target indexes' sizes; every other path must end in "
+              "TypeError/ValueError. Missing/extra/non-Tensor arguments are finite concrete cases run through the public wrappers."),
+        design="DESIGN.md §4 C10",
+        note="Trusted: z3; the proxy layer (SymInt/SymBool/SymEnum) and the three stubs listed in the evidence. Assignment axis enumerated."),
+    "C11": dict(
+        level="model_checking", engine="E4-PyProxy -> E1-KSE",
+        technique="stage 1: symbolic execution of the real operator dispatch on proxy tensors with symbolic dimensions; stage 2: symbolic execution of the kernel compiled for the recorded request against a specification derived from the operator; bounded",
+        text=("Stage 1 runs evaluate_binary_operator / evaluate_matrix_multiplication_operator on proxy tensors (enumerated formats, "
+              "symbolic dimension sizes): z3 decides that ValueError is raised iff the shapes are incompatible, operands are bound "
+              "left->left/right->right and natural-order operands get the documented output format. Stage 2 compiles every recorded "
+              "request with the real compiler and checks the kernel symbolically (as C01/C02) against the operator's own meaning "
+              "(element-wise / scalar broadcast / vector-matrix products), not against the recorded string."),
+        design="DESIGN.md §4 C11"),
 }
 
 NOT_APPLICABLE = {
@@ -83,7 +103,7 @@ NOT_APPLICABLE = {
     "C14": "thread interleavings of CPython, LLVM MCJIT and the cffi build lock: no engine here explores Python thread schedules symbolically (DESIGN.md §5)",
     "C15": "hash seeds, process boundaries and request histories are not inputs of a function a solver can quantify over; the cache-key clause ranges over a small finite set where a symbolic check degenerates to enumeration (DESIGN.md §5)",
 }
-PENDING = {pid: "check under construction in this round (see DESIGN.md §10 build order); not claimed until it runs quiet on the unchanged tree" for pid in ["C06","C09","C10","C11","C12"]}
+PENDING = {pid: "check under construction in this round (see DESIGN.md §10 build order); not claimed until it runs quiet on the unchanged tree" for pid in ["C06","C09","C12"]}
 
 
 def main():
@@ -116,6 +136,9 @@ def main():
             {"name": "E1-KSE", "path": "vlib/kse.py, vlib/irexec.py, vlib/tensors.py, vlib/kassert.py, vlib/spec.py",
              "serves_properties": ["C01", "C02", "C03", "C04", "C05", "C07", "C16"],
              "kind_free_text": "path-based symbolic executor for tensora IR on z3 (replay forking, hybrid concrete/symbolic heap)"},
+            {"name": "E4-PyProxy", "path": "vlib/pyproxy.py, vlib/checks/c10.py, vlib/checks/c11.py",
+             "serves_properties": ["C10", "C11"],
+             "kind_free_text": "real Python glue executed on z3-backed proxy values with the replay-forking engine (deterministic value forks)"},
             {"name": "E3-trees", "path": "vlib/trees.py, vlib/stmts.py, vlib/checks/c07.py",
              "serves_properties": ["C07", "C06", "C12"],
              "kind_free_text": "typed IR expression/statement tree enumeration with symbolic variables; meanings compared by z3"},
